@@ -143,7 +143,7 @@ class Book:
 
     def flush(self):
         for kind, (n, ex) in sorted(self.drift.items()):
-            self.ctx.drift_event(f"{kind}: the real dulwich code differs from Config.tla on {n} case(s), e.g. {ex}")
+            self.ctx.drift_event(f"{kind}: the real dulwich code differs from the specification on {n} case(s), e.g. {ex}")
         self.ctx.cov["drift_cases"] = sum(n for n, _ in self.drift.values())
         self.ctx.cov.update(self.stats)
         if self.spec and not self.ctx.violations:
